@@ -14,6 +14,8 @@ cd /repo || exit 2
 if [ -n "$(git status --porcelain)" ]; then echo "/repo not clean"; exit 2; fi
 for c in $(git rev-list --reverse main..agent-$N); do
   subj=$(git log -1 --format=%s $c)
+  if grep -q "^$(git rev-parse --short=7 $c)" /verif/tools/skip_commits.txt; then echo "skip (listed): $subj"; continue; fi
+  if [ "$(git rev-list --parents -n1 $c | wc -w)" -gt 2 ]; then echo "skip (merge commit): $subj"; continue; fi
   if git log main --format=%s | grep -qxF "$subj"; then echo "skip (already on main): $subj"; continue; fi
   if git cherry-pick -x $c >/dev/null 2>&1; then echo "picked: $subj"; else
      if git diff --cached --quiet && git diff --quiet; then git cherry-pick --skip; echo "skip (empty): $subj"; else echo "CHERRY-PICK CONFLICT: $subj"; git status --short | head; exit 1; fi
